@@ -7,7 +7,7 @@ class C12(Check):
     theorems = ("C12_exactly_one_sender", "C12_root_has_no_sender", "C12_all_triggered",
                 "C12_children_distinct", "C12_children_in_range",
                 "C12_arrival_exactly_once", "C12_arrival_terminates", "C12_stale_recheck_refuted",
-                "C12_children_are_the_code")
+                "C12_children_are_the_code", "C12_signalled_exactly_once", "C12_state_guard_necessary")
     gen = ({"file": "parsec/mca/termdet/user_trigger/termdet_user_trigger_module.c",
             "fns": ["parsec_termdet_signal_termination"],
             "locals": ["parsec_termdet_signal_termination:my_rank,nb_children,child,real_child"],
@@ -25,7 +25,10 @@ class C12(Check):
                   "thread (registration, taskpool_ready, replay of parked messages) and each of the three situations the notification "
                   "can find, it is handled at most once, only while BUSY, exactly once when both threads are done, and both finish "
                   "(finite protocol: the reachable set is computed and checked closed by the kernel); tied by running the real entry "
-                  "points under EVERY schedule prefix of length 12 with per-thread step counts compared.")
+                  "points under EVERY schedule prefix of length 12 with per-thread step counts compared. Counter protocol of one process "
+                  "(ready / trigger / runtime actions): for every disciplined history termination is signalled at most once, exactly "
+                  "when TERMINATED, and as soon as nothing is pending (C12_signalled_exactly_once); tied by random histories of the "
+                  "module's interface calls.")
     level_note = ("Trusted: Coq kernel, extraction, harness stub of send_am; assumes exactly-once message delivery (C14) and no "
                   "int overflow (2n+2 < 2^31). In the arrival cases parsec_taskpool_lookup is replaced by a one-entry table (the real "
                   "registry is C37's subject); one notification per process (duplicates are excluded by C14 and the tree theorems).")
@@ -64,6 +67,39 @@ class C12(Check):
             n = r.range(25, 1500)
             out.append("sys %d %d" % (n, r.pick([0, n - 1, r.below(n)])))
         out += self.arrival_cases(r)
+        out += self.ops_cases(r)
+        return out
+
+    def ops_cases(self, r):
+        """histories of the module's interface calls on one process (counter protocol): disciplined ones
+        (ready first, one trigger, runtime actions never below zero, paired actions after the termination)"""
+        out = ["ops 7 2 2 R T a1 a-1 a1 a-1", "ops 7 5 6 R T a1 a-1 s0 a2 a-2", "ops 3 0 1 R a2 T a-1 a-1 a3 a-3"]
+        for _ in range(1500 if self.tier == "quick" else 20000):
+            n = r.range(2, 200)
+            root = r.below(n)
+            me = r.pick([root, (root + 1) % n, r.below(n)])
+            ops, pa, trig, term = ["R"], 1, False, False
+            for _k in range(r.range(1, 14)):
+                c = r.below(10)
+                if c < 2 and not trig:
+                    ops.append("T"); trig = True; pa -= 1
+                elif c < 5:
+                    v = r.range(1, 3); ops.append("a%d" % v); pa += v
+                elif c < 8 and pa > (0 if trig else 1):
+                    v = r.range(1, pa - (0 if trig else 1)); ops.append("a-%d" % v); pa -= v
+                elif c == 8:
+                    ops.append(r.pick(["n%d" % r.range(1, 5), "t%d" % r.range(-3, 3), "a0"]))
+                elif c == 9 and trig:
+                    v = r.pick([0, 0, r.range(1, 3)]); ops.append("s%d" % v); pa = v
+            # usually finish: trigger, retire everything, then late paired actions
+            if r.chance(3, 4):
+                if not trig:
+                    ops.append("T"); pa -= 1
+                if pa > 0:
+                    ops.append("a-%d" % pa)
+                for _k in range(r.range(0, 3)):
+                    v = r.range(1, 2); ops += ["a%d" % v, "a-%d" % v]
+            out.append("ops %d %d %d %s" % (n, root, me, " ".join(ops)))
         return out
 
     def arrival_cases(self, r):
@@ -93,17 +129,33 @@ class C12(Check):
 
     def nontrivial_key(self, case):
         w = case.split()
+        if w[0] == "ops":
+            return case
         return case if int(w[2 if w[0] == "arr" else 1]) >= 2 else None
 
     def dist(self, cases):
         one = [c for c in cases if c.startswith("one")]
         arr = [c for c in cases if c.startswith("arr")]
-        return {"one": len(one), "sys": len(cases) - len(one) - len(arr), "arr": len(arr),
+        ops = [c for c in cases if c.startswith("ops")]
+        return {"one": len(one), "sys": len(cases) - len(one) - len(arr) - len(ops), "arr": len(arr), "ops": len(ops),
                 "max_n": max(int(c.split()[1]) for c in cases)}
 
     # --- property oracle on the implementation's observations -------------
     def oracle(self, case, obs):
         w = case.split()
+        if w[0] == "ops":
+            f = dict(x.split("=") for x in obs.split() if "=" in x)
+            try:
+                sig, st, pa = int(f["sig"]), int(f["state"]), int(f["pa"])
+            except Exception:
+                return "unparsable observation: " + obs[:80]
+            if sig > 1:
+                return "termination was signalled %d times at one process (children notified and callback run again)" % sig
+            if (sig == 1) != (st == 4):
+                return "signalled %d time(s) but the monitor state is %d" % (sig, st)
+            if st != 1 and pa == 0 and sig != 1:
+                return "the taskpool is ready with no pending action but termination was not signalled"
+            return None
         if w[0] == "arr":
             n, root, me = int(w[2]), int(w[3]), int(w[4])
             f = dict(x.split("=") for x in obs.split(" children:")[0].split() if "=" in x)
@@ -151,6 +203,8 @@ class C12(Check):
         w = case.split()
         if w[0] == "arr":
             return "arr-ini%s" % w[1]
+        if w[0] == "ops":
+            return "ops-signal-count"
         return "%s-n%s" % (w[0], w[1])
 
     def search_cases(self):
